@@ -118,15 +118,17 @@ def generate(mul, classes, prop, extra_classes):
     for c, p in extra_classes.items():
         L.append(f'Cls_{c} == {body(p)}')
         acts.append(f'Cls_{c}')
-    L.append('Propagate == IF PropTable[wf] = NA THEN UNCHANGED wf /\\ outcome\' = "TypeError"\n'
-             '             ELSE wf\' = PropTable[wf] /\\ outcome\' = "ok"')
-    acts.append('Propagate')
+    # the documentation names two far-field methods (propagate_dft, propagate_fft): one action each, same table
+    for pa in ('Propagate', 'PropagateFFT'):
+        L.append(pa + ' == IF PropTable[wf] = NA THEN UNCHANGED wf /\\ outcome\' = "TypeError"\n'
+                 '             ELSE wf\' = PropTable[wf] /\\ outcome\' = "ok"')
+        acts.append(pa)
     L.append('Next == ' + ' \\/ '.join(acts))
     L.append('Spec == Init /\\ [][Next]_vars')
     # the documented protocol's own invariants (the statement of C08)
     L.append('TypeOK == wf \\in WF /\\ outcome \\in {"ok", "TypeError"}')
     L.append('RefusalKeepsType == [][outcome\' = "TypeError" => wf\' = wf]_vars')
-    L.append('PropagationSwaps == [][Propagate => \\/ (outcome\' = "TypeError" /\\ wf = "none")\n'
+    L.append('PropagationSwaps == [][(Propagate \\/ PropagateFFT) => \\/ (outcome\' = "TypeError" /\\ wf = "none")\n'
              '                                   \\/ (outcome\' = "ok" /\\ wf = "pupil" /\\ wf\' = "image")\n'
              '                                   \\/ (outcome\' = "ok" /\\ wf = "image" /\\ wf\' = "pupil")]_vars')
     L.append('====')
